@@ -216,7 +216,11 @@ pub fn dgram(rng: &mut Rng, r: &mut Runner, maxops: usize) {
                     if let Some(p) = peer {
                         let frame = 1 + varint(len).len() as u64 + len;
                         if frame > p {
-                            r.oracle_fail(&format!("key=dgram-send-exceeds-peer-limit send accepted {len} bytes (a {frame}-byte DATAGRAM frame) although the peer advertised max_datagram_frame_size = {p}"));
+                            // the recorded finding is the CONFIGURATION "peer value 0 or 1" (saturating_sub(SIZE_BOUND) gives
+                            // Some(0) instead of None: only an EMPTY datagram gets through); a frame beyond any other peer
+                            // limit, or a non-empty payload, is a different defect (wrong overhead bound) and keeps its own key
+                            let key = if p < 2 && len == 0 { "dgram-send-exceeds-peer-limit" } else { "dgram-send-exceeds-peer-limit-other-cause" };
+                            r.oracle_fail(&format!("key={key} send accepted {len} bytes (a {frame}-byte DATAGRAM frame) although the peer advertised max_datagram_frame_size = {p}"));
                         }
                     }
                     // oldest dropped first, minimal eviction, appended intact, accounting
